@@ -259,3 +259,29 @@ fn replay_c19() {
         }
     }
 }
+
+/// join operands: anything but a bare table must be printed as a parenthesised sub-select
+#[test]
+fn replay_c19_join() {
+    use crate::internal::query::Select;
+    let on = || Expr::col("A.K").eq(Expr::col("B.K"));
+    let mut bad = Vec::new();
+    let q1 = Select::table("A").inner_join(Select::table("B").columns(&["X"]), on()).to_string();
+    if !q1.contains("(SELECT X FROM B)") {
+        bad.push(format!("projection lost: {}", q1));
+    }
+    let q2 = Select::table("A").left_join(Select::table("B").with(Expr::col("X").gt(Expr::integer(1))), on()).to_string();
+    if !q2.contains("(SELECT * FROM B WHERE X > 1)") {
+        bad.push(format!("condition lost: {}", q2));
+    }
+    let q3 = Select::table("A").columns(&["K"]).inner_join(Select::table("B"), on()).to_string();
+    if !q3.contains("(SELECT K FROM A)") {
+        bad.push(format!("left projection lost: {}", q3));
+    }
+    let q4 = Select::table("A").inner_join(Select::table("B").inner_join(Select::table("C"), on()), on()).to_string();
+    if !q4.contains("INNER JOIN (SELECT * FROM B INNER JOIN C") {
+        bad.push(format!("nested join not parenthesised: {}", q4));
+    }
+    println!("OUT differs={}", if bad.is_empty() { 0 } else { 1 });
+    println!("OUT witness={}", bad.join(" | "));
+}
